@@ -3,3 +3,5 @@ import rules_io      # noqa  C06 C07 C08 C09 C10
 import rules_sched   # noqa  C02 C03 C05
 import rules_err     # noqa  C04
 import rules_panic   # noqa  C18
+import rules_run     # noqa  C17
+import rules_text    # noqa  C12 C13 C16
